@@ -70,6 +70,34 @@ def extra(ctx):
             ctx.violation("run() does not honour the wall-clock limit", {"property": "C02", "kind": "runtime", "suite": "run", "case": line.split(" ", 1)[1], "impl_output": r[:200], "seconds": dt})
 
 
+    # a program of few, slow steps: the limit must be noticed at the first step boundary after it has passed
+    limit_ms, nsteps = 2, 40
+    for prof in (0, 1):
+        n, res = 1 << 20, None
+        while True:
+            line = "slowrun (%d () %d %d %d)" % (prof, nsteps, limit_ms, n)
+            r = vcheck.run_impl([line], timeout=120)[0]
+            try:
+                v = sx_parse(r)
+                res = v[1] if v[0] == 0 else None
+            except Exception:
+                res = None
+            if res is None or res[3] >= 4 * limit_ms * 1000 or n >= (1 << 27):
+                break
+            n *= 2
+        ctx.evaluations += 1
+        st = ctx.stats.setdefault("time-limit-slow-steps", {"cases": 0, "note": "%d x INTVECTOR.SUM on a vector sized so that ONE step takes >= %d ms (measured), eval_time_limit = %d ms: run() must return TimeLimitExceeded after at most 3 steps" % (nsteps, 4 * limit_ms, limit_ms), "runs": []})
+        st["cases"] += 1
+        st["runs"].append({"profile": prof, "elements": n, "result": res})
+        if res is None:
+            ctx.violation("slow-step run did not return", {"property": "C02", "kind": "runtime", "suite": "slowrun", "case": line.split(" ", 1)[1], "impl_output": r[:200]})
+        elif res[3] < 4 * limit_ms * 1000:
+            st["note"] += " (profile %d: a step never reached %d ms, not judged)" % (prof, 4 * limit_ms)
+        elif not (res[0] == 2 and nsteps - res[1] <= 3):
+            ctx.violation("run() ran %d slow steps (each >= %d us) past a %d ms limit, outcome %d" % (nsteps - res[1], res[3], limit_ms, res[0]),
+                          {"property": "C02", "kind": "runtime", "suite": "slowrun", "case": line.split(" ", 1)[1], "impl_output": r[:200]})
+
+
 TECHNIQUE = "Coq proof that the run loop refines an independent accounting relation over single steps (soundness, fuel sufficiency, determinism, outcome characterisation for every clock) + differential correspondence of run() against the model and against manual step() accounting done by the harness"
 DESIGN_REF = "DESIGN.md section 6.C02"
 LEVEL_TEXT = ("Props/C02.v: for every program, state, registry whose instructions do not write the configuration, every clock and every limit: run's result is what the single-step accounting relation yields (C02_run_follows_accounting), the accounting is a function, the final state is iter_step j of the start state with j <= limit+1, "
